@@ -5,7 +5,8 @@
 (*   [valid, data : sequences over the N inputs, ready   -- inputs          *)
 (*    ovalid, odata, oready : sequence, idle]            -- observed        *)
 (* `data` / `odata` are opaque payload values (compared by equality).      *)
-(* A trace is [cfg |-> [n |-> N], steps |-> <<records>>].                  *)
+(* A trace is [cfg |-> [n |-> N, comb |-> BOOLEAN], steps |-> <<records>>]; *)
+(* every record also has rst (clock-domain reset asserted in this cycle).   *)
 (***************************************************************************)
 EXTENDS Arbiter, TLC, TLCExt, Json, IOUtils
 
@@ -18,21 +19,23 @@ ASSUME \A i \in 1..Len(Logs) : TLCSet(i, <<0, "ok">>)
 
 Rec == Logs[tid].steps[l]
 
-InputOf(r) == [valid |-> r.valid, data |-> r.data, ready |-> r.ready]
+InputOf(r) == [valid |-> r.valid, data |-> r.data, ready |-> r.ready, rst |-> r.rst]
 
 \* Named clauses of the observation relation (Ref outputs are a function of sel and the inputs).
 Failing(r) ==
-    LET i == InputOf(r) IN
-    IF r.ovalid # OutValid(sel, i) THEN "source_valid"
-    ELSE IF OutValid(sel, i) /\ r.odata # OutData(sel, i) THEN "source_payload"
-    ELSE IF \E k \in Idx : k # sel /\ r.oready[k] THEN "ready_to_nonselected"
-    ELSE IF i.valid[sel] /\ r.oready[sel] # i.ready THEN "ready_to_selected"       \* an offered word sees the output's ready
-    ELSE IF r.oready[sel] /\ ~i.ready THEN "ready_invented"
-    ELSE IF r.idle # IdleFlag(i) THEN "idle"
+    LET i == InputOf(r)
+        e == Eff(i) IN
+    IF ~EnvOK(i) THEN "env_multiplexer_two_inputs_valid"
+    ELSE IF r.ovalid # OutValid(e, i) THEN "source_valid"
+    ELSE IF OutValid(e, i) /\ r.odata # OutData(e, i) THEN "source_payload"
+    ELSE IF \E k \in Idx : k # e /\ r.oready[k] THEN "ready_to_nonselected"
+    ELSE IF e # 0 /\ i.valid[e] /\ r.oready[e] # i.ready THEN "ready_to_selected"    \* an offered word sees the output's ready
+    ELSE IF e # 0 /\ r.oready[e] /\ ~i.ready THEN "ready_invented"
+    ELSE IF ~Comb /\ r.idle # IdleFlag(i) THEN "idle"                                  \* (the multiplexer has no idle output)
     ELSE "ok"
 
 TInit == /\ tid \in 1..Len(Logs)
-         /\ InitWith(Logs[tid].cfg.n)
+         /\ InitWith(Logs[tid].cfg.n, Logs[tid].cfg.comb)
          /\ l = 1
          /\ status = "ok"
 
